@@ -371,7 +371,9 @@ class TorchDistributedCommunicator:
 
     def group_ranks(self, group: dist.ProcessGroup | None) -> frozenset[int]:
         """Get frozenset of ranks in group."""
-        return frozenset(range(get_world_size(group)))
+        if group is None or not dist.is_initialized():
+            return frozenset(range(get_world_size(group)))
+        return frozenset(dist.get_process_group_ranks(group))
 
     def flush_allreduce_buckets(self) -> None:
         """Initiate the communication for the current allreduce bucket."""
